@@ -98,6 +98,8 @@ HARMLESS = [
     ('C19', 'sc3/synth/envelope.py', "        return cls([0, level, 0], [dur, dur], 'sine')", "        return cls([0, level, 0], [dur, dur], 'sin')", "Env.sine: the other name of the same shape"),
     ('C13', 'sc3/seq/patterns/listpatterns.py', "                            lst[bi.mod(pos + j, size)], inval)", "                            lst[(pos + j) % size], inval)", "Pslide: Python's % instead of bi.mod"),
     ('C13', 'sc3/seq/patterns/listpatterns.py', "                if wrap:\n                    for j in range(lval):\n                        inval = yield from stm.embed(\n                            lst[bi.mod(pos + j, size)], inval)\n                else:\n                    for j in range(lval):\n                        if 0 <= pos + j < size:\n                            inval = yield from stm.embed(\n                                lst[pos + j], inval)\n                        else:\n                            return inval\n", "                if not wrap:\n                    for j in range(lval):\n                        if 0 <= pos + j < size:\n                            inval = yield from stm.embed(\n                                lst[pos + j], inval)\n                        else:\n                            return inval\n                else:\n                    for j in range(lval):\n                        inval = yield from stm.embed(\n                            lst[bi.mod(pos + j, size)], inval)\n", 'Pslide: branches (each with its loop) exchanged under a negated test'),
+    ('C13', 'sc3/seq/patterns/filterpatterns.py', "        trig = None\n        try:\n            while True:\n                trig = trig_stream.next(inval)\n                if trig:", "        flag = None\n        try:\n            while True:\n                flag = trig_stream.next(inval)\n                if flag:", 'Platch: local for the trigger renamed'),
+    ('C02', 'sc3/synth/synthdef.py', "        if self._bytes is None:\n            stream = io.BytesIO()", "        if True:\n            stream = io.BytesIO()", 'as_bytes makes the bytes again every time (same bytes)'),
 ]
 
 BREAKING = [
@@ -227,6 +229,11 @@ BREAKING = [
     ('C13', 'sc3/base/stream.py', "    if hasattr(obj, '__embed__'):\n        return obj.__embed__(inval)", "    if hasattr(obj, '__embed__'):\n        return obj.__embed__()", 'embed() drops the input value'),
     ('C13', 'sc3/seq/eventstream.py', "                self._stream = stm.embed(self.pattern, inval)\n                return next(self._stream)\n            else:\n                return self._stream.send(inval)", "                self._stream = stm.embed(self.pattern, inval)\n                return next(self._stream)\n            else:\n                return self._stream.send(None)", 'pattern value stream drops the input value after the first call'),
     ('C14', 'sc3/seq/eventstream.py', "                clock = clock or _libsc3.main.current_tt._clock\n                clock.play(self, quant)", "                clock = _libsc3.main.current_tt._clock\n                clock.play(self, quant)", 'event stream player ignores the clock it is given'),
+    ('C03', 'sc3/synth/ugen.py', "        obj._add_to_synth()\n        return obj._init_ugen(*args)", "        obj._add_to_synth()\n        obj._add_to_synth()\n        return obj._init_ugen(*args)", 'a new unit is registered twice'),
+    ('C02', 'sc3/synth/ugen.py', "[OutputProxy.new(rate, self, i) for i in range(channels)])", "[OutputProxy.new(rate, self, i) for i in range(channels - 1)])", 'a multi-output unit makes one output proxy too few'),
+    ('C15', 'sc3/synth/ugen.py', "            return BinaryOpUGen.new(selector, input, self)", "            return BinaryOpUGen.new(selector, self, input)", 'reflected operator on a unit forgets to exchange the operands'),
+    ('C17', 'sc3/synth/node.py', "            4, target.node_id, # 4 -> 'addReplace'", "            3, target.node_id, # 4 -> 'addReplace'", 'Synth.replace sends add action 3'),
+    ('C17', 'sc3/synth/node.py', "        obj.node_id = obj.server._next_node_id() if node_id is None else node_id", "        obj.node_id = srv.Server.default._next_node_id() if node_id is None else node_id", 'node id taken from the default server instead of the node\'s own'),
 ]
 
 
